@@ -2,7 +2,8 @@
 from props import termgen as tg
 
 ID = 'C09'
-GENERATORS = ['gen_font']     # Model/AnsiTok.v loads `CTerm:Font:` strings with C17's Model/Font.v, which needs Gen/FontConsts.v
+GENERATORS = ['gen_font',     # Model/AnsiTok.v loads `CTerm:Font:` strings with C17's Model/Font.v, which needs Gen/FontConsts.v
+              'gen_macro']    # Gen/MacroLimit.v: MAX_MACRO_NESTING (Model/AnsiTok.v)
 COQ_TARGETS = ['Props/C09.vo', 'Run/RunC09.vo', 'Run/RunC01.vo']
 PROPS_MODULE = 'Props.C09'
 THEOREMS = ['c09_stream', 'origin_never_margins', 'fixed_grid_size', 'ansi_char_keeps_cursor', 'c09_petscii']
@@ -17,7 +18,7 @@ UNMODELLED = ['PETSCII: font page / foreground colour of a cell (Model/Petscii.v
               'streams that execute a text-area resize (CSI 8;h;w t) are outside the property; the model carries a ghost flag for them']
 ASSUMPTIONS = ['row counters (cursor row, buffer height, number of lines) stay below 2^31: `pos.y + 1` is unchecked in the model; reaching it needs >= 2^31-61 allocated rows (resource domain of C03)',
                'bytes are fed as `b as char` (code points 0..255), as the property says',
-               'macro nesting deeper than MACRO_FUEL = 32 is Diverge in the model (the real code recurses until the stack overflows: C01 known finding)']
+               'macro invocations nest at most MAX_MACRO_NESTING deep (Gen/MacroLimit.v, read from the source by translator/gen_macro.py, which pins the counter discipline of invoke_macro_by_id); a deeper one is an error value']
 RULE = ('token streams over the alphabet of DESIGN A.4 (~75 control functions x parameters {none,0,1,mid,size,size+1,9999}; 333 concrete ANSI tokens, plus the tokens of '
         'Avatar/PCBoard/Ctrl-A/Renegade and the byte alphabets of ASCII/ATASCII/PETSCII/Viewdata/Mode 7). Stage C: seeded random streams, observation after every '
         'character. Stage S: the invariant itself after every character: every 2-token sequence (quick) / 3-token sequence over a thinned alphabet (thorough) after three '
